@@ -167,6 +167,14 @@ type TSIGVerdict struct {
 // given secrets (key name in canonical form -> base64 secret), prior MAC,
 // timers-only setting and current time.
 func VerifyTSIG(b []byte, secrets map[string]string, prior []byte, timersOnly bool, now uint64) TSIGVerdict {
+	return VerifyTSIGCase(b, secrets, prior, timersOnly, now, false)
+}
+
+// VerifyTSIGCase is VerifyTSIG; with anyCase it also judges messages whose
+// key name is not spelled in lower case on the wire (the digest takes the
+// name in canonical form whatever its spelling, RFC 8945 4.3.3) - for
+// verifiers that are handed the secret itself and look nothing up by name.
+func VerifyTSIGCase(b []byte, secrets map[string]string, prior []byte, timersOnly bool, now uint64, anyCase bool) TSIGVerdict {
 	t, _, ok := FindTSIG(b)
 	if !ok {
 		return TSIGVerdict{Reason: "no TSIG as last additional record", Judgable: true}
@@ -202,7 +210,7 @@ func VerifyTSIG(b []byte, secrets map[string]string, prior []byte, timersOnly bo
 		v.Judgable, v.Reason = false, "error/other data in a timers-only envelope (not covered by the digest)"
 		return v
 	}
-	if strings.ToLower(string(t.KeyRaw)) != string(t.KeyRaw) {
+	if !anyCase && strings.ToLower(string(t.KeyRaw)) != string(t.KeyRaw) {
 		// key-name case differs from the canonical form the secret maps require: not judged
 		v.Judgable, v.Reason = false, "key name not in canonical case"
 		return v
